@@ -289,7 +289,7 @@ func doReplay(path, out string) {
 		fmt.Fprintln(os.Stderr, "simworker: unknown scenario", r.Scenario)
 		os.Exit(2)
 	}
-	o := core.RunOne(sc, r.Seed, core.RunOpts{Thorough: r.Thorough, WantDesc: true, KeepLog: 200, Replay: r.Tape})
+	o := core.RunOne(sc, r.Seed, core.RunOpts{Only: core.PropOf(r.Oracle), Thorough: r.Thorough, WantDesc: true, KeepLog: 200, Replay: r.Tape})
 	if strings.HasPrefix(r.Oracle, "C13.") {
 		// A race report is reproduced if the same pair of library frames is
 		// reported again. The schedule is exactly the recorded one every time;
@@ -300,7 +300,7 @@ func doReplay(path, out string) {
 		o.Violation = nil
 		for attempt := 0; attempt < 40 && o.Violation == nil && raceScan != nil; attempt++ {
 			if attempt > 0 {
-				o = core.RunOne(sc, r.Seed, core.RunOpts{Thorough: r.Thorough, WantDesc: true, KeepLog: 200, Replay: r.Tape})
+				o = core.RunOne(sc, r.Seed, core.RunOpts{Only: core.PropOf(r.Oracle), Thorough: r.Thorough, WantDesc: true, KeepLog: 200, Replay: r.Tape})
 			}
 			for _, rep := range raceScan.scan() {
 				if "C13.race."+rep.Sig == r.Oracle {
@@ -373,7 +373,7 @@ func doShrink(path, out string) {
 			return nil, false
 		}
 		runs++
-		o := core.RunOne(sc, r.Seed, core.RunOpts{Thorough: r.Thorough, Replay: t, Lenient: true})
+		o := core.RunOne(sc, r.Seed, core.RunOpts{Only: core.PropOf(r.Oracle), Thorough: r.Thorough, Replay: t, Lenient: true})
 		return o, o.Violation != nil && o.Violation.Oracle == r.Oracle
 	}
 	// normalise: the recorded tape of a successful lenient replay is exact
@@ -456,7 +456,7 @@ func doShrink(path, out string) {
 		}
 	}
 	// final exact run for the record
-	o := core.RunOne(sc, r.Seed, core.RunOpts{Thorough: r.Thorough, WantDesc: true, KeepLog: 200, Replay: best})
+	o := core.RunOne(sc, r.Seed, core.RunOpts{Only: core.PropOf(r.Oracle), Thorough: r.Thorough, WantDesc: true, KeepLog: 200, Replay: best})
 	if o.Violation == nil || o.Violation.Oracle != r.Oracle {
 		fmt.Fprintln(os.Stderr, "simworker: shrink: minimised tape does not reproduce strictly; keeping the original")
 		writeJSON(out, r)
